@@ -15,6 +15,10 @@ pub struct CallCase {
     pub req_md: Md,
     pub script: Script,
     pub free_cuts: bool,
+    /// both directions compressed with this encoding (client send+accept, server send+accept)
+    pub enc: Option<crate::oracle::comp::Enc>,
+    /// bodies are delivered in fixed 4 KiB chunks (large messages)
+    pub fixed_chunks: bool,
 }
 
 pub fn status_menu(tier: Tier) -> Vec<StatusSpec> {
@@ -81,8 +85,23 @@ pub fn call_cases(tier: Tier) -> Vec<CallCase> {
                         let req_md = mds[n % mds.len()].clone();
                         let initial_md = mds[(n / 2) % mds.len()].clone();
                         let script = Script { initial_md, msgs: msgs.clone(), end, handler_err, bidi: *mode, disable_compression: false };
-                        out.push(CallCase { shape, req_msgs: req_msgs.clone(), req_md, script, free_cuts: false });
+                        out.push(CallCase { shape, req_msgs: req_msgs.clone(), req_md, script, free_cuts: false, enc: None, fixed_chunks: false });
                     }
+                }
+            }
+        }
+    }
+    // compression in both directions with large, well compressible and poorly compressible messages
+    {
+        use crate::oracle::comp::Enc;
+        let zeros = vec![0u8; 20_000];
+        let noisy = super::codec_common::payload(40_000, 1);
+        for shape in Shape::ALL {
+            for enc in [Enc::Gzip, Enc::Deflate, Enc::Zstd] {
+                for (req, resp) in [(zeros.clone(), noisy.clone()), (noisy.clone(), zeros.clone()), (vec![1u8, 2, 3], zeros.clone())] {
+                    let req_msgs = if shape.streams_requests() { vec![req.clone(), vec![5]] } else { vec![req.clone()] };
+                    let script = Script { initial_md: vec![], msgs: vec![resp.clone(), vec![6]], end: None, handler_err: false, bidi: BidiMode::ReadAll, disable_compression: false };
+                    out.push(CallCase { shape, req_msgs, req_md: vec![], script, free_cuts: false, enc: Some(enc), fixed_chunks: true });
                 }
             }
         }
@@ -92,7 +111,7 @@ pub fn call_cases(tier: Tier) -> Vec<CallCase> {
         let req_msgs = if shape.streams_requests() { vec![vec![1], vec![]] } else { vec![vec![1]] };
         for end in [None, Some(statuses[4].clone())] {
             let script = Script { initial_md: mds[1].clone(), msgs: vec![vec![2]], end, handler_err: false, bidi: BidiMode::ReadAll, disable_compression: false };
-            out.push(CallCase { shape, req_msgs: req_msgs.clone(), req_md: mds[2].clone(), script, free_cuts: true });
+            out.push(CallCase { shape, req_msgs: req_msgs.clone(), req_md: mds[2].clone(), script, free_cuts: true, enc: None, fixed_chunks: false });
         }
     }
     out
@@ -172,11 +191,19 @@ pub fn judge(o: &mut Outcome, c: &CallCase, view: &ClientView, log: &HandlerLog)
 }
 
 fn l1_body(c: &CallCase, ch: &Chooser) -> Outcome {
-    let (server, log) = new_server(c.script.clone(), ch, true);
+    let (mut server, log) = new_server(c.script.clone(), ch, true);
+    if let Some(e) = c.enc {
+        let e = super::codec_common::tonic_enc(e);
+        server = server.send_compressed(e).accept_compressed(e);
+    }
     let capture = Arc::new(Mutex::new(Capture::default()));
-    let chunking = Chunking::Choose { free: c.free_cuts, pending: true, empty: false };
+    let chunking = if c.fixed_chunks { Chunking::Fixed(vec![4096, 1, 7000]) } else { Chunking::Choose { free: c.free_cuts, pending: true, empty: false } };
     let direct = Direct { svc: server, ch: ch.clone(), req_chunking: chunking.clone(), resp_chunking: chunking, capture: capture.clone() };
     let mut client = EchoClient::new(direct);
+    if let Some(e) = c.enc {
+        let e = super::codec_common::tonic_enc(e);
+        client = client.send_compressed(e).accept_compressed(e);
+    }
     let view = match spin_block_on(client_call(&mut client, c.shape, c.req_msgs.clone(), &c.req_md, true, ch, |_| {}), 200_000) {
         Ok(v) => v,
         Err(_) => {
@@ -189,6 +216,9 @@ fn l1_body(c: &CallCase, ch: &Chooser) -> Outcome {
     let mut o = Outcome::new(format!("{} | handler msgs={:?} err={:?}", fmt_view(&view), log.req_msgs, log.req_err));
     o.nontrivial = ch.deviations() > 0 || c.script.end.is_some();
     judge(&mut o, c, &view, &log);
+    if ch.has_flag(crate::env::SOURCE_POLLED_AFTER_END) {
+        o.violate("source-polled-after-end", "a request or response message stream was polled again after it had returned None (a legitimate non-fused stream may panic there and the call would be lost)");
+    }
     o
 }
 
@@ -197,7 +227,11 @@ fn l1_body(c: &CallCase, ch: &Chooser) -> Outcome {
 pub fn l2_run(c: &CallCase, chop: usize, ch: &Chooser) -> Result<(ClientView, HandlerLog), String> {
     use crate::env::vnet::{self, ConnectMode};
     let rt = vnet::runtime(11);
-    let (server, log) = new_server(c.script.clone(), ch, true);
+    let (mut server, log) = new_server(c.script.clone(), ch, true);
+    if let Some(e) = c.enc {
+        let e = super::codec_common::tonic_enc(e);
+        server = server.send_compressed(e).accept_compressed(e);
+    }
     let c2 = c.clone();
     let ch2 = ch.clone();
     let view = rt.block_on(async move {
@@ -211,6 +245,10 @@ pub fn l2_run(c: &CallCase, chop: usize, ch: &Chooser) -> Result<(ClientView, Ha
             None => return Err("connect hung".into()),
         };
         let mut client = EchoClient::new(channel);
+        if let Some(e) = c2.enc {
+            let e = super::codec_common::tonic_enc(e);
+            client = client.send_compressed(e).accept_compressed(e);
+        }
         let v = vnet::within(std::time::Duration::from_secs(3600), client_call(&mut client, c2.shape, c2.req_msgs.clone(), &c2.req_md, true, &ch2, |_| {})).await;
         srv.abort();
         v.ok_or_else(|| "call hung".to_string())
@@ -245,12 +283,18 @@ fn l2_body(c: &L2Case, ch: &Chooser) -> Outcome {
             let mut o = Outcome::new(format!("{} | handler msgs={:?} err={:?}", fmt_view(&clean), log.req_msgs, log.req_err));
             o.nontrivial = c.chop != 0 || c.call.script.end.is_some();
             judge(&mut o, &c.call, &view, &log);
+            if ch.has_flag(crate::env::SOURCE_POLLED_AFTER_END) {
+                o.violate("source-polled-after-end", "a request or response message stream was polled again after it had returned None");
+            }
             o
         }
     }
 }
 
 pub fn describe(c: &CallCase) -> String {
+    if c.fixed_chunks {
+        return format!("{:?} enc={:?} req_lens={:?} resp_lens={:?} (large messages, fixed chunks)", c.shape, c.enc.map(|e| e.name()), c.req_msgs.iter().map(|m| m.len()).collect::<Vec<_>>(), c.script.msgs.iter().map(|m| m.len()).collect::<Vec<_>>());
+    }
     format!(
         "{:?} req={:?} req_md={:?} script{{md={:?} msgs={:?} end={:?} handler_err={} mode={:?}}} free={}",
         c.shape, c.req_msgs, c.req_md, c.script.initial_md, c.script.msgs, c.script.end, c.script.handler_err, c.script.bidi, c.free_cuts
